@@ -40,6 +40,13 @@ def check(ctx):
     c01.rule_split(ctx, ctx.facts, "G12")
     c01.rule_lookup(ctx, ctx.facts, "G12", "G12")
     c01.rule_search(ctx, ctx.facts, "G12")
+    # ... with every field type's own interpolation: the same end points, the same affine form and the same behaviour
+    # outside [0,1] for floats, integers and vectors (C14/R1-R4), so that fields of different types move together
+    from rules import c14
+    c14.rule_endpoints(ctx, ctx.facts, "G13")
+    c14.rule_affine(ctx, ctx.facts, "G13")
+    c14.rule_integers(ctx, ctx.facts, "G13")
+    c14.rule_glam(ctx, ctx.facts, "G13")
     ctx.extra["programs"] = n
     ctx.extra["disagreements_checked"] = n
     ctx.extra["tv_samples"] = [{"shape": s.label, "animated": s.animated, "target": s.target} for s in shapes[:8]]
